@@ -373,10 +373,16 @@ impl<Key, Value> CacheD<Key, Value>
     pub fn get_ref(&self, key: &Key) -> Option<KeyValueRef<'_, Key, StoredValue<Value>>> {
         if self.is_shutting_down() { return None; }
 
+        #[cfg(cached_verif)]
+        crate::cache::verif::lock_acquire("StoreShard");
         if let Some(value_ref) = self.store.get_ref(key) {
             self.mark_key_accessed(key);
+            #[cfg(cached_verif)]
+            crate::cache::verif::lock_release("StoreShard");
             return Some(value_ref);
         }
+        #[cfg(cached_verif)]
+        crate::cache::verif::lock_release("StoreShard");
         None
     }
 
